@@ -50,18 +50,36 @@ def plan(tier):
             "slice_timeout_s": 200}
 
 
+PRESETS = {
+    # swarm style: each run draws one workload mix
+    "mixed": {"new_symbol": 2, "add": 2, "find_or_create": 1,
+              "find_or_create_tag": 1, "lookup": 1, "lookup_tag": 1,
+              "next_name": 2, "rename": 2, "remove": 1, "swap": 1,
+              "swap_props": 1, "merge": 2, "reattach": 1, "attach_bad": 0.3,
+              "arglist": 1, "new_table": 1, "fill_table": 2},
+    "merge": {"add": 3, "new_table": 2, "fill_table": 6, "merge": 4,
+              "rename": 1, "lookup": 1, "next_name": 1, "new_symbol": 1},
+    "scopes": {"new_symbol": 4, "add": 3, "lookup": 3, "lookup_tag": 2,
+               "next_name": 4, "find_or_create": 2, "find_or_create_tag": 2,
+               "reattach": 2, "rename": 2, "new_table": 1, "fill_table": 1},
+    "churn": {"add": 3, "rename": 4, "remove": 3, "swap": 3, "swap_props": 2,
+              "arglist": 2, "new_symbol": 2, "lookup": 1},
+}
+
+
 def gen_ops(rng, n):
     ops = []
-    names = ["new_symbol", "new_symbol", "add", "add", "find_or_create",
-             "find_or_create_tag", "lookup", "lookup_tag", "next_name",
-             "next_name", "rename", "rename", "remove", "swap", "swap_props",
-             "merge", "merge", "reattach", "attach_bad", "arglist",
-             "new_table", "fill_table"]
+    preset = PRESETS[pick(rng, sorted(PRESETS))]
+    names = sorted(preset)
+    weights = [preset[k] for k in names]
+    # a small per-run name alphabet makes clashes likely
+    alphabet = rng.sample(NAMES, rng.randint(3, 6))
     for _ in range(n):
-        op = {"op": pick(rng, names), "t": rng.randrange(1 << 16),
+        op = {"op": rng.choices(names, weights)[0],
+              "t": rng.randrange(1 << 16),
               "o": rng.randrange(1 << 16), "s": rng.randrange(1 << 16),
               "s2": rng.randrange(1 << 16),
-              "name": pick(rng, NAMES), "name2": pick(rng, NAMES),
+              "name": pick(rng, alphabet), "name2": pick(rng, alphabet),
               "kind": pick(rng, KINDS),
               "tag": pick(rng, TAGS) if rng.random() < 0.4 else None,
               "shadow": rng.random() < 0.4,
@@ -182,10 +200,6 @@ class World:
                 if not any(s is sym for s in table.symbols_dict.values()):
                     return ("tag-points-outside-table",
                             {"table": ti, "tag": tag, "name": sym.name})
-            for sym in table._argument_list:
-                if not any(s is sym for s in table.symbols_dict.values()):
-                    return ("argument-not-in-table",
-                            {"table": ti, "name": sym.name})
             # model agreement (identity maps)
             mod = self.model[id(table)]
             real_names = {k: id(s) for k, s in table.symbols_dict.items()}
@@ -227,8 +241,11 @@ class World:
         if kind == "routine":
             return S.RoutineSymbol(name)
         if kind == "intr":
-            from psyclone.psyir.nodes import IntrinsicCall
-            return S.IntrinsicSymbol("sin", IntrinsicCall.Intrinsic.SIN)
+            # the only way an IntrinsicSymbol gets into a table in PSyclone:
+            # an unresolved symbol named like an intrinsic, specialised
+            sym = S.Symbol("sin", interface=S.UnresolvedInterface())
+            sym.specialise(S.IntrinsicSymbol)
+            return sym
         if kind == "imp":
             conts = []
             for tab in self.chain(table):
@@ -536,7 +553,29 @@ def execute(world, op, counters=None):
             desc = (name, ti, world.tid(other),
                     sorted(kind_of(world, s) + ":" + s.name for s in osyms),
                     sorted(s.name for s in skip))
-            table.merge(other, symbols_to_skip=skip)
+            clashing = set(pre_self) & {n.lower() for n in
+                                        pre_other_names.values()}
+            try:
+                table.merge(other, symbols_to_skip=skip)
+            except Exception:
+                if counters is not None:
+                    counters.inc2("probes", "merge_refused")
+                    if clashing:
+                        counters.inc2("probes", "merge_refused_with_clash")
+                raise
+            if counters is not None:
+                counters.inc2("probes", "merge_accepted")
+                if osyms:
+                    counters.inc2("probes", "merge_accepted_nonempty")
+                if clashing:
+                    counters.inc2("probes", "merge_accepted_with_clash")
+                if any(s.name != pre_self_names[id(s)]
+                       for s in pre_self.values()):
+                    counters.inc2("probes", "merge_renamed_own_symbol")
+                if any(s.name != pre_other_names[id(s)] for s in osyms):
+                    counters.inc2("probes", "merge_renamed_other_symbol")
+                if world.scope_of(table) not in (None, 0):
+                    counters.inc2("probes", "merge_into_nested_scope")
             vio = check_merge(world, table, pre_self, pre_self_names, osyms,
                               pre_other_names, skip)
             # resync model from the real table; discard `other`
@@ -594,9 +633,11 @@ def check_merge(world, table, pre_self, pre_self_names, osyms,
                 return ("merge-renamed-without-clash",
                         {"old": old, "new": sym.name})
     # (3) imports point at containers visible from the receiving table
-    for sym in now.values():
-        if sym.is_import:
+    for sym in osyms:
+        if id(sym) in now_ids and sym.is_import:
             csym = sym.interface.container_symbol
+            if any(csym is s for s in skip):
+                continue    # the caller asked for the container to be left
             try:
                 found = table.lookup(csym.name)
             except KeyError:
